@@ -89,6 +89,8 @@ struct Tag {
 	bool covered;             // false: a non-equivalent change is not certain to be noticed (cut-and-choose round
 	                          // whose challenge does not look at this position) -> nothing is asserted
 	std::vector<Tag> toks;    // K_STRUCT
+	std::string weak;         // root-cause label for finding keys: positions whose membership ("order2"), range
+	                          // ("norange") or sign ("negexp") handling is a distinct library mechanism
 	Tag() : k(K_EXACT), P(NULL), Q(NULL), le(0), covered(true) {}
 	Tag(Kind kk, const std::string &w, const Z *p = NULL, const Z *q = NULL, unsigned l = 0)
 		: k(kk), what(w), P(p), Q(q), le(l), covered(true) {}
